@@ -74,13 +74,13 @@ BOUNDS = {
              'convertInputData off)',
     'thorough': 'strings: all of length <= 4 (341) + 16 samples under every string function, 10 substrings, 4-argument '
                 'indexOf/lastIndexOf on all, operators against all strings of length <= 3; typed replacement dictionaries: '
-                '11 keys (also 12, "12", false, "false") x 4 values (also ""), one and two entries (1772), '
-                'x 49 subjects x (literal without count, count 0, 1, 2; as data without count, count => -1, 1); regex: all '
+                '9 keys (also 12, "12") x 4 values (also ""), one and two entries (1156), '
+                'x 37 subjects x (literal without count, count 0, 1, 2; as data without count, count => -1, 1); regex: all '
                 'patterns of <= 2 atoms x 8 flag sets x 28 strings (55 without flags) x 6 core forms + the 3 generated field '
                 'forms for patterns with groups, and without flags 26 forms (+ 2 field forms) on the 55 strings; all patterns '
                 'of 3 atoms x 6 core forms x (28 strings without flags, the 8 flag-sensitive strings under each of the 7 other '
                 'flag sets), the 3 field forms without flags and with all three flags, and without flags 26 forms (+ 2 field '
-                'forms) on 16 strings; '
+                'forms) on 8 strings; '
                 'the 4 other flag spellings for every (pattern <= 2 atoms, flag set) and for 3-atom patterns where multiLine != dotAll; '
                 'the option-set runs as in quick',
 }
@@ -124,11 +124,11 @@ DICTS = [
 # null / 'null', true / 'true', 12 / '12'), keys that are substrings of one another (1 / 12), and values that feed
 # the next key ('a' => 1, 1 => 'x') all occur in both orders.  Subjects: concatenations of the spellings.
 TKEYS_Q = ['a', '1', 1, None, 'null', True, 'true']
-TKEYS_T = TKEYS_Q + [12, '12', False, 'false']
+TKEYS_T = TKEYS_Q + [12, '12']
 TVALS_Q = ['x', 1, None]
 TVALS_T = TVALS_Q + ['']
 TTOKENS_Q = ['a', '1', 'null', 'true']
-TTOKENS_T = TTOKENS_Q + ['2', 'false']
+TTOKENS_T = TTOKENS_Q + ['2']
 TSUBJECTS_3 = ['a1b1', 'a12b1', '1null1', 'truetrue1', '1a1a1', '12121']
 
 
@@ -156,9 +156,8 @@ RX_SAMPLES = ['A', 'aB', 'Ab\n', 'B\nA', '\xe9', 'a\xe9b', ' a ', 'abab', 'baab'
 RX_STRINGS_2 = over(['a', 'b', '\n'], 2)
 RX_STRINGS_3 = over(['a', 'b', '\n'], 3)
 RX_FEW = ['ab', 'ba\nab']
-RX_MORE_Q = ['', 'a', 'ab', 'ba', '\n', 'a\n', 'A', 'Ab\n']          # quick, the further forms
+RX_MORE_Q = ['', 'a', 'ab', 'ba', '\n', 'a\n', 'A', 'Ab\n']          # the further forms: quick, and 3-atom patterns in thorough
 RX_FLAGGED_Q = ['', 'a', 'b', '\n', 'ab', 'a\nb', '\nb', 'Ab\n']    # runs with flags set: quick, and 3-atom patterns in thorough
-RX_MORE_T3 = RX_STRINGS_2 + RX_SAMPLES[:3]                           # thorough, the further forms on 3-atom patterns
 
 
 def patterns(max_atoms):
@@ -724,7 +723,7 @@ def job_regex(tier, pats):
                 if rx.groups and (plain or all(flags) or (thorough and not atoms3)):
                     for name, _ in GROUP_CORE_FORMS:
                         judge_rx(res, name, p, flags, s, robj[1], rx)
-                if plain and (not atoms3 or s in RX_MORE_T3 if thorough else not atoms3 and s in RX_MORE_Q):
+                if plain and (thorough or not atoms3) and (thorough and not atoms3 or s in RX_MORE_Q):
                     for name, _, _ in MORE_FORMS:
                         judge_rx(res, name, p, flags, s, robj[1], rx)
                     if rx.groups:
